@@ -67,7 +67,7 @@ func Load(dir string, overlay map[string][]byte, patterns []string) (*Explorer, 
 		Mode:       packages.LoadAllSyntax,
 		Dir:        dir,
 		Overlay:    overlay,
-		BuildFlags: []string{"-tags=verif"},
+		BuildFlags: []string{"-tags=verif,math_big_pure_go"}, // math/big without assembly: its arithmetic is interpretable
 		Env:        append(os.Environ(), "GOFLAGS=-mod=mod", "GOPROXY=off", "GOSUMDB=off", "GOTOOLCHAIN=local"),
 	}
 	pkgs, err := packages.Load(cfg, patterns...)
